@@ -4,6 +4,7 @@
 pub mod aio;
 pub mod fuzz;
 pub mod networld;
+pub mod proc;
 pub mod logcap;
 pub mod panics;
 pub mod watchdog;
@@ -157,6 +158,8 @@ impl Report {
             *self.known_hits.entry(k).or_default() += v;
         }
         self.inconclusive.extend(other.inconclusive);
+        self.inconclusive.sort();
+        self.inconclusive.dedup();
         self.assumptions.extend(other.assumptions);
     }
 }
@@ -335,6 +338,14 @@ impl Ctx {
 
     /// Report a violation found by an enumerated suite. Returns true when it is a known finding.
     pub fn violation(&mut self, suite: &str, case: Value, v: Violation) -> bool {
+        if v.sig.starts_with("harness:") {
+            // the environment or the harness failed, not the code under test: inconclusive
+            let line = format!("suite {}: {}: {}", suite, v.sig, v.msg);
+            if !self.report.inconclusive.iter().any(|x| x.starts_with(&format!("suite {}: {}", suite, v.sig))) {
+                self.report.inconclusive.push(line);
+            }
+            return false;
+        }
         if self.is_known(&v.sig) {
             *self.report.known_hits.entry(v.sig.clone()).or_default() += 1;
             return true;
